@@ -8,6 +8,7 @@
 package main
 
 import (
+	"context"
 	"bytes"
 	"encoding/hex"
 	"encoding/json"
@@ -196,6 +197,8 @@ func scenarios(w *world) []*scenario {
 		{name: "L-two-decodes-shared-enum", threads: [][]call{{w.dec("T1", t1doc)}, {w.dec("T2", t2doc), w.qry("T2", url.Values{"color": {"RED"}})}}, quickBound: 3, thoroughBound: 99},
 		{name: "N-prefixed-enum-names", threads: [][]call{{w.dec("T1", `{"color":"COLOR_RED"}`)}, {w.dec("T2", `{"color":"COLOR_GREEN"}`), w.qry("T2", url.Values{"color": {"COLOR_RED"}})}}, quickBound: 3, thoroughBound: 99},
 		{name: "M-warm-two-decodes", warm: []call{w.enc("T1", t1doc)}, threads: [][]call{{w.dec("T1", t1doc)}, {w.dec("T1", t1doc)}}, quickBound: 3, thoroughBound: 99},
+		{name: "O-failing-type-twice", threads: [][]call{{w.dec("TBad", badDoc), w.dec("TBad", badDoc), w.enc("T1", t1doc)}, {w.enc("T2", t2doc)}}, quickBound: 2, thoroughBound: 99},
+		{name: "P-warm-failing-type", warm: []call{w.dec("TBad", badDoc)}, threads: [][]call{{w.dec("TBad", badDoc), w.enc("T2", t2doc)}, {w.enc("T1", t1doc), w.dec("TBad", badDoc)}}, quickBound: 2, thoroughBound: 99},
 		{name: "I-hash-ids", threads: [][]call{{hashCall("ns", "a", "b"), hashCall("ns", "a", "b")}, {hashCall("ns", "a", "b"), hashCall("other", "c")}}, quickBound: 3, thoroughBound: 99},
 	}
 }
@@ -653,12 +656,17 @@ func parent(r *vk.Runner) {
 	wg.Add(1)
 	go func() {
 		defer wg.Done()
-		cmd := exec.Command(exe, "--free", "20")
+		ctx, cancel := context.WithTimeout(context.Background(), 600*time.Second)
+		defer cancel()
+		cmd := exec.CommandContext(ctx, exe, "--free", "20")
 		cmd.Env = append(os.Environ(), "GORACE=halt_on_error=1", "GOTRACEBACK=single")
 		var se bytes.Buffer
 		cmd.Stderr = &se
 		err := cmd.Run()
-		if err != nil {
+		if ctx.Err() != nil {
+			// the bodies are finite (seconds): not finishing in 600 s means blocked goroutines
+			freeOut = "hang: the free-running pass did not finish within 600 s (blocked goroutines)"
+		} else if err != nil {
 			sig, _ := raceSig(se.String())
 			freeOut = "race: " + sig
 			if sig == "" {
@@ -676,6 +684,12 @@ func parent(r *vk.Runner) {
 		r.MarkIncomplete()
 	} else {
 		r.Note("sync_shim", "applied to lib/j5schema, lib/j5reflect, internal/codec, lib/id62, lib/j5codec")
+	}
+	if strings.HasPrefix(freeOut, "hang:") {
+		r.Family("free-running")
+		r.Do("free-running-hang", func(t *vk.T) {
+			t.Violation("deadlock-free-running", freeOut, nil, nil, nil)
+		})
 	}
 	if strings.HasPrefix(freeOut, "race:") {
 		r.Family("free-running")
